@@ -67,6 +67,7 @@ class _SurfaceNormaliser(ast.NodeTransformer):
         self.generic_visit(n)
         self.depth -= 1
         if self.depth == 0:
+            self._inline_explaining_vars(n)   # `g = (.. for ..); x = next(g, d)` first becomes `x = next((.. for ..), d)`
             self._next_to_loops(n)
             self._inline_explaining_vars(n)
             self._flatten_else(n)
